@@ -120,6 +120,93 @@ fn load_snap(e: &mut Emu, m128: bool, border: u8, fmt: i64, fe_low: u8) -> Resul
     Ok(())
 }
 
+impl C09 {
+    /// kind 1: a free-running program writes the border; the host drives in multi-frame calls.
+    fn program_kind(&self, sc: &Scenario, cfg: &MCfg, mut e: Emu, ctx: &mut RunCtx) -> Result<(), Fail> {
+        let m128 = cfg.m128;
+        let f = cfg.frame_len() as u64;
+        let machine = if m128 { "128k" } else { "48k" };
+        // program: DI; { LD BC,n; L: DEC BC; LD A,B; OR C; JR NZ,L; LD A,v; OUT (0xFE),A }*; JR $
+        let mut prog: Vec<u8> = vec![0xF3];
+        for op in sc.ops.iter().filter(|o| o.k == "pout") {
+            let n = op.arg(0).clamp(1, 65535) as u16;
+            let v = ((op.arg(1) & 7) | (op.arg(2) & 0xF8)) as u8;
+            prog.extend_from_slice(&[0x01, n as u8, (n >> 8) as u8, 0x0B, 0x78, 0xB1, 0x20, 0xFB, 0x3E, v, 0xD3, 0xFE]);
+        }
+        prog.extend_from_slice(&[0x18, 0xFE]);
+        if prog.len() > 0x3000 {
+            return Ok(());
+        }
+        // establish a colour and settle
+        e.verif_bus().write_io(0x00FE, 5);
+        write_mem(&mut e, IDLE, &[0xF3, 0x18, 0xFE]);
+        let mut st = CpuState::default();
+        st.pc = IDLE;
+        st.sp = 0x8FF0;
+        st.to_impl(e.verif_cpu());
+        run_frames(&mut e, 2).map_err(|x| Fail::new("C09.run", "", x))?;
+        check_border(&e, cfg, 5, &[], 0)?;
+        write_mem(&mut e, 0x9000, &prog);
+        let mut st = cpu_state(&mut e);
+        st.pc = 0x9000;
+        st.to_impl(e.verif_cpu());
+        // reference time line of the program's writes
+        let total_frames: u64 = sc.ops.iter().filter(|o| o.k == "call").map(|o| o.arg(1).clamp(1, 8) as u64).sum();
+        let t0 = e.verif_frame_clocks() as u64;
+        let mut m = zxref::mem::RefMem::new(m128);
+        for b in 0..8u8 {
+            if let Some(pg) = phys_page(m128, b) {
+                m.banks[b as usize].copy_from_slice(e.verif_ram_page(pg));
+            }
+        }
+        let events = crate::lockstep::ref_out_events(&mut m, &cpu_state(&mut e), t0, (total_frames + 1) * f);
+        let mut frames_done = 0u64;
+        for op in sc.ops.iter().filter(|o| o.k == "call") {
+            let n = op.arg(1).clamp(1, 8) as usize;
+            let slice = match op.arg(0) {
+                1 => Slice::Max(n, op.arg(2).clamp(0, 2) as u8),
+                2 => Slice::Break(op.arg(2).max(0) as u64, n),
+                _ => Slice::Count(n),
+            };
+            if n > 1 {
+                ctx.probe("program_multi_frame_call");
+            }
+            let mut rng = Rng::new(op.arg(3) as u64);
+            let done = drive(&mut e, slice, &mut rng).map_err(|x| Fail::new("C09.drive", "", x))? as u64;
+            frames_done += done;
+            ctx.sim_t += done * f;
+            // the presented frame is the last completed one
+            let fidx = frames_done - 1;
+            let (lo, hi) = (fidx * f, (fidx + 1) * f);
+            let start_colour = events.iter().filter(|ev| ev.t_io < lo).last().map(|ev| ev.value & 7).unwrap_or(5);
+            let writes: Vec<Write> = events.iter().filter(|ev| ev.t_io >= lo && ev.t_io < hi).map(|ev| Write { t_io: (ev.t_io - lo) as i64, t_end: (ev.t_end - lo) as i64, colour: ev.value & 7 }).collect();
+            if writes.is_empty() && events.iter().any(|ev| ev.t_io < lo && ev.t_io >= lo.saturating_sub((done.max(1) - 1) * f)) {
+                ctx.probe("write_in_unpresented_frame");
+            }
+            check_border(&e, cfg, start_colour, &writes, frames_done as usize).map_err(|mut x| {
+                x.witness = format!("{},program=1,frames_per_call={}", x.witness, if done > 1 { "many" } else { "1" });
+                x
+            })?;
+            // the colour reported to the host: last write whose instruction has completed
+            let now = frames_done * f + e.verif_frame_clocks() as u64;
+            let settled: Vec<u8> = events.iter().filter(|ev| ev.t_end <= now).map(|ev| ev.value & 7).collect();
+            let pending_now = events.iter().any(|ev| ev.t_io < now && ev.t_end > now);
+            let exp = settled.last().copied().unwrap_or(5);
+            if !pending_now && e.border_color() as u8 != exp {
+                return Err(Fail::new("C09.border_color", &format!("machine={},program=1", machine), format!("border_color() is {} after {} frames, the program's last completed write set {}", e.border_color() as u8, frames_done, exp)));
+            }
+            ctx.units += writes.len() as u64 + 1;
+            let mut h = Fnv::new();
+            h.u8(m128 as u8);
+            h.u8(9);
+            h.u64(done.min(4));
+            h.u64(writes.len().min(3) as u64);
+            ctx.cover(h.get());
+        }
+        Ok(())
+    }
+}
+
 impl Property for C09 {
     fn id(&self) -> &'static str {
         "C09"
@@ -131,7 +218,7 @@ impl Property for C09 {
         }
     }
     fn rule(&self) -> &'static str {
-        "per run: machine, optional snapshot load (SNA or SZX) that sets the border, snapshot loads between frames, then 3..8 frames each with 0..12 OUTs (OUT (n),A or OUT (C),A to a seeded even port) at seeded T (uniform, clustered on one line, in horizontal/vertical retrace, in the first/last border lines, straddling the frame end); every completed border buffer is compared pixel by pixel with the time line of observed write instants (+-8 T = 16 pixels); distinct = (machine, line class of the write, in-line phase bucket, writes-per-frame bucket)"
+        "per run: machine, optional snapshot load (SNA or SZX) that sets the border, snapshot loads between frames, then 3..8 frames each with 0..12 OUTs (OUT (n),A or OUT (C),A to a seeded even port) at seeded T (uniform, clustered on one line, in horizontal/vertical retrace, in the first/last border lines, straddling the frame end); every fourth run instead a free-running program makes the writes (instants from RefZ80 on RefMem+RefULA) while the host asks for several frames per call (FrameCount(n), Max mode, breakpoint stops) and the frame presented after each call is compared; every completed border buffer is compared pixel by pixel with the time line of observed write instants (+-8 T = 16 pixels); distinct = (machine, line class of the write, in-line phase bucket, writes-per-frame bucket)"
     }
     fn state_measure(&self) -> &'static str {
         "distinct (machine, write T / 64) positions exercised"
@@ -146,13 +233,44 @@ impl Property for C09 {
         vec!["the write is taken to happen somewhere between the start of the port cycle and the end of the OUT instruction; pixels within 8 T of that span may show either colour", "code runs in uncontended RAM; ports have an uncontended high byte unless stated (the instants are observed, not predicted)"]
     }
     fn expected_probes(&self) -> Vec<&'static str> {
-        vec!["frame_without_write", "several_writes_one_line", "write_in_retrace", "write_straddles_frame_end", "write_in_last_lines", "snapshot_border", "write_before_first_border_line", "snapshot_between_frames", "szx_fe_low_differs"]
+        vec!["frame_without_write", "several_writes_one_line", "write_in_retrace", "write_straddles_frame_end", "write_in_last_lines", "snapshot_border", "write_before_first_border_line", "snapshot_between_frames", "szx_fe_low_differs", "program_multi_frame_call", "write_in_unpresented_frame"]
     }
 
     fn gen(&self, rng: &mut Rng, tier: Tier, _idx: u64) -> Scenario {
         let mut sc = Scenario::new();
         let m128 = rng.bool();
         sc.set("m128", m128 as i64);
+        if _idx % 4 == 3 {
+            // kind 1: the writes are made by a free-running program while the host asks for several
+            // frames per call (FrameCount(n), Max mode, breakpoint stops); only the last completed frame of
+            // each call is presented, and it must be right
+            sc.set("kind", 1);
+            let f: i64 = if m128 { 70908 } else { 69888 };
+            let frames = rng.range(3, if tier == Tier::Quick { 7 } else { 12 });
+            let n_out = rng.range(1, 10);
+            let mut ts: Vec<i64> = (0..n_out).map(|_| rng.range(200, frames * f - 200)).collect();
+            ts.sort();
+            let mut prev = 0i64;
+            for t in ts {
+                // delay loop iterations (26 T each) between two writes
+                let iters = ((t - prev) / 26).clamp(1, 65535);
+                sc.op("pout", &[iters, rng.range(0, 7), rng.range(0, 31) << 3]);
+                prev = t;
+            }
+            let mut left = frames;
+            while left > 0 {
+                let mode = rng.range(0, 2);
+                let n = rng.range(1, 4).min(left);
+                let p = match mode {
+                    1 => rng.range(0, 2),
+                    2 => *rng.pick(&[0i64, 3, 50, 1000, 4368]),
+                    _ => 0,
+                };
+                sc.op("call", &[mode, n, p, (rng.next() >> 16) as i64]);
+                left -= n;
+            }
+            return sc;
+        }
         sc.set("snap_border", if rng.chance(1, 4) { rng.range(0, 7) } else { -1 });
         // format of the snapshots (0 SNA, 1 SZX); an SZX writer may leave anything in the low bits of
         // the "last OUT to 0xFE" field, only its MIC/EAR bits are defined
@@ -164,6 +282,11 @@ impl Property for C09 {
         let first: i64 = if m128 { 14362 } else { 14336 };
         let frames = if tier == Tier::Quick { rng.range(3, 6) } else { rng.range(3, 10) };
         for fr in 0..frames {
+            if snap_mid && fr > 0 && rng.chance(1, 3) {
+                // the host loads a snapshot between two frames; the writes of the frame that follows are
+                // made by the loaded machine
+                sc.op("snap", &[rng.range(0, 7), rng.range(0, 1), rng.range(0, 7)]);
+            }
             let n = *rng.pick(&[0i64, 0, 1, 1, 2, 3, 5, 8, 12]);
             let mut ts: Vec<i64> = vec![];
             let style = rng.below(6);
@@ -186,10 +309,6 @@ impl Property for C09 {
             for t in ts {
                 sc.op("out", &[fr, t, rng.range(0, 7), rng.range(0, 1), (rng.u8() as i64) << 8 | 0xFE, rng.range(0, 255)]);
             }
-            if snap_mid && fr > 0 && rng.chance(1, 3) {
-                // the host loads a snapshot between two frames
-                sc.op("snap", &[rng.range(0, 7), rng.range(0, 1), rng.range(0, 7)]);
-            }
             sc.op("frame", &[fr]);
         }
         sc
@@ -203,6 +322,9 @@ impl Property for C09 {
         let first = if m128 { 14362i64 } else { 14336 };
         let mut e = new_emu(&cfg);
         let machine = if m128 { "128k" } else { "48k" };
+        if sc.get("kind") == 1 {
+            return self.program_kind(sc, &cfg, e, ctx);
+        }
         let mut colour: u8;
         // optional: the border stored in a loaded snapshot
         let sb = sc.get("snap_border");
